@@ -20,6 +20,8 @@ _BASE = {
     'engine': 'cbmc', 'shims': ['moodycamel', '../harness/C27/shim'],
     'repo_sources': ['dispenso/detail/per_thread_info.cpp', 'dispenso/task_set.cpp'],
     'models': ['aligned_alloc'], 'cflags': ['-fno-inline'],
+    # path-exploration mode (see paths_rt.c) + CBMC's standard checks (pointer validity incl. dead/deallocated objects)
+    'checks': ['--div-by-zero-check', '--paths', 'lifo'], 'rt_extra': ['harness/C27/paths_rt.c'],
     'spin_loops': True, 'timeout': int(os.environ.get('DEV_TIMEOUT', 1500)), 'must_reach': 'all',
 }
 _LN = {0: 'plain function (serial)', 99: 'stage(f, kStageNoLimit)'}
@@ -57,5 +59,9 @@ _Q = ('quick', 'thorough')
 INSTANCES = [
     pl('g_s_p1', 1, 1, tiers=_Q),
     pl('dev1', 1, 1, depth=0, ctx=0),
-    pl('dev2', 0, 1, depth=0, ctx=0),
+    pl('dev2', 1, 1, depth=1, ctx=0),
+    pl('dev3', 1, 1, depth=2, ctx=0),
+    pl('dev4', 1, 1, depth=2, ctx=1),
+    pl('dev5', 1, 2, l1=2, depth=2, ctx=0),
+    pl('dev6', 2, 2, gl=2, l1=99, depth=2, ctx=0),
 ]
